@@ -783,6 +783,8 @@ pub enum Layout {
   LineComments,
   /// every white space character of the FEEL grammar (rules 61, 62) in turn, also before the first and after the last token
   EveryWhiteSpace,
+  /// two comments in a row between all tokens (a block comment followed by a block or by a line comment)
+  TwoComments,
   /// a run of 16 white space characters (blanks, a line break, a tab) between all tokens, before the first and after the last
   LongRuns,
 }
@@ -854,6 +856,7 @@ pub fn join(toks: &[Tok], layout: Layout) -> String {
         Layout::NewlinesTabs => out.push_str(if i % 2 == 0 { "\n\t" } else { " \n" }),
         Layout::BlockComments => out.push_str(" /* c 1 + ( */ "),
         Layout::LineComments => out.push_str(" // c ) \"\n "),
+        Layout::TwoComments => out.push_str(if i % 2 == 0 { " /* a */ /* b */ " } else { " /* a */ // b\n " }),
         Layout::LongRuns => out.push_str(if i % 2 == 0 { "             \n\t " } else { "\n               " }),
         Layout::EveryWhiteSpace => {
           // U+1680, U+180E and U+FEFF are white space by rule 61 and name characters by rule 30 at the same time: directly after a
